@@ -8,7 +8,7 @@ from pathlib import Path
 
 from hypothesis import strategies as st
 
-from vlib.core import Outcome, in_sympy_piecewise_eval, raised_inside_sympy_piecewise
+from vlib.core import CaseTimeout, Outcome, in_sympy_piecewise_eval, raised_inside_sympy_piecewise
 from vlib.spec import close
 
 ID = "C17"
@@ -600,6 +600,24 @@ def _find(name: str, have) -> str | None:
     return None
 
 
+def _piecewise_inside_condition(doc: dict) -> bool:
+    """Some piecewise of the document has another piecewise inside its condition."""
+
+    def has_pw(e) -> bool:
+        return isinstance(e, list) and ((bool(e) and e[0] == "piecewise") or any(has_pw(x) for x in e))
+
+    def walk(e) -> bool:
+        if isinstance(e, dict):
+            return any(walk(x) for x in e.values())
+        if not isinstance(e, list):
+            return False
+        if e and e[0] == "piecewise" and len(e) == 4 and has_pw(e[2]):
+            return True
+        return any(walk(x) for x in e)
+
+    return walk([doc["reactions"], doc["rules"], doc["inits"], doc["functions"]])
+
+
 def _has_xor(doc: dict) -> bool:
     import json
 
@@ -792,6 +810,11 @@ def _examine(case: dict, ctx) -> Outcome:
             if isinstance(e, KeyError) and "function_listed_before_its_callee" in feats and str(e).strip("'\"") in {f_["id"] for f_ in doc["functions"]}:
                 out.bad("read-raises:KeyError:function-definition-listed-before-its-callee", error=repr(e)[:200])
                 return out
+            if isinstance(e, CaseTimeout):
+                raise
+            if raised_inside_sympy_piecewise(e) and not _has_xor(doc) and _piecewise_inside_condition(doc):
+                out.bad(f"read-raises:{type(e).__name__}:raised-in-sympy:Piecewise-with-piecewise-inside-its-condition", error=repr(e)[:200])
+                return out
             if raised_inside_sympy_piecewise(e) and _has_xor(doc):
                 out.bad(f"read-raises:{type(e).__name__}:raised-in-sympy:Piecewise-with-xor-condition", error=repr(e)[:200])
                 return out
@@ -831,6 +854,11 @@ def _examine(case: dict, ctx) -> Outcome:
         fids = {f_["id"] for d_ in (doc, doc2) for f_ in d_["functions"]}
         if isinstance(e, KeyError) and str(e).strip("'\"") in fids and any("function_listed_before_its_callee" in d_["features"] for d_ in (doc, doc2)):
             out.bad("session:read-raises:KeyError:function-definition-listed-before-its-callee", error=repr(e)[:200])
+            return out
+        if isinstance(e, CaseTimeout):
+            raise
+        if raised_inside_sympy_piecewise(e) and not (_has_xor(doc) or _has_xor(doc2)) and (_piecewise_inside_condition(doc) or _piecewise_inside_condition(doc2)):
+            out.bad(f"session:read-raises:{type(e).__name__}:raised-in-sympy:Piecewise-with-piecewise-inside-its-condition", error=repr(e)[:200])
             return out
         if raised_inside_sympy_piecewise(e) and (_has_xor(doc) or _has_xor(doc2)):
             out.bad(f"session:read-raises:{type(e).__name__}:raised-in-sympy:Piecewise-with-xor-condition", error=repr(e)[:200])
